@@ -60,7 +60,7 @@ PROPS = {
         "assumptions": ["informer caches are monotone per kind", "run objects are removed by others only after their Trial completed", "algorithm service returns fresh names"],
     },
     "C04": {
-        "prop_files": ['Katib/Props/C04.lean', 'Katib/Props/C04Quiescent.lean', 'Katib/Props/C04Schedules.lean', 'Katib/Props/C04Counters.lean', 'Katib/Props/C04Resume.lean'],
+        "prop_files": ['Katib/Props/C04.lean', 'Katib/Props/C04Quiescent.lean', 'Katib/Props/C04Schedules.lean', 'Katib/Props/C04Counters.lean', 'Katib/Props/C04Resume.lean', 'Katib/Props/C03Guards.lean'],
         "streams": [('SIM', {'quick': 240, 'thorough': 8000}), ('C04D', {'quick': 150, 'thorough': 3000})],
         "rule": "seeded random schedules of the three real reconcilers on the fake client (1-2 experiments, optionally equally named in two namespaces; maxTrialCount 1-4/unset, parallel 1-3, maxFailed, goal, three resume policies, early stopping, retain, push collector), ops = reconciles with per-kind monotone lagging views (random lag, stalled informers, one kind's cache held for several reconciles - also exactly at the Experiment copy from before its verdict), write-fault masks, abort points, algorithm reply faults (short/long/error, rules RPC error), job outcomes, metric arrival (also after the verdict), early stop, deployment ready, external removal of a completed trial's run object, a run-object-creating reconcile cut off before its status write with the job finishing before the retry; scripted RPC failures cycle through gRPC status codes; then fault-free settling to quiescence, a quiescence probe, optionally one or two budget raises each with a second settling, and optionally a teardown in which Trials are deleted and reconciled while the database call or the finalizer write fails; every op's write log and the whole store are compared with the Lean model; a case = one schedule; distinct = distinct op sequence; stream C04D: parallelTrialCount lowered right after a batch of Trials was created (optionally one of them already finished), the real deleteTrials branch, then the three real controllers to quiescence; only the outcome is judged (verdict reached, suggestionCount = requests = number of assignments after the deletion) - this branch is outside the Lean controller model",
         "trusted": ["controller-runtime fake client stands in for the kube-apiserver (rv conflicts, status subresource, AlreadyExists)",
